@@ -38,7 +38,7 @@ def run(tier, rep):
         jobs += [("all M=3", dict(Family='"all"', M=3, Part=0, Parts=1, EmitMod=1, DocN=3))]
         jobs += [("all M=4 part %d/5" % p, dict(Family='"all"', M=4, Part=p, Parts=5, EmitMod=40, DocN=2)) for p in range(5)]
     else:
-        jobs += [("all M=3", dict(Family='"all"', M=3, Part=0, Parts=1, EmitMod=2, DocN=2))]
+        jobs += [("all M=3 part %d/2" % p, dict(Family='"all"', M=3, Part=p, Parts=2, EmitMod=3, DocN=2)) for p in range(2)]
 
     def one(job):
         name, c = job
